@@ -147,15 +147,17 @@ def main():
                  'Model/Deb.lean tied to lib/cli.py + Checker.__init__ by the deb-fakepath and deb-checkfile streams (real dpkg-deb, what os.walk yielded, independent extraction)',
                  'C08 parse_of_encodes (model of lib/moparser.py, tied by the mo-parse streams)',
                  'contract of tempfile.TemporaryDirectory, dpkg-deb, os.walk: TESTED (TMPDIR snapshots, also with an injected member failure and with unreadable packages)',
-                 'the hypotheses of po_spelling_invariant_of_load_spells (C10) and of transcoding_invariant / the blindness of the seven parameter stages of Meta.pipeline '
-                 '(C15/C16 models) are NOT discharged here: decided at test level by the metamorphic comparisons on the real tool'],
-        explanation='PROVED: mo_layout_invariant (+ family) from C08; fake_path_rewrite/_outside_unchanged/_value_error_iff/_prefix_is_directory; deb_output, deb_output_lines, '
-                    'deb_lines_prefix, deb_other_member_silent, deb_member_line, deb_no_value_error, not_a_package_is_regular, no_unpack_is_regular; mo_entry_view_neutral; '
-                    'po_vs_mo, po_vs_mo_hidden, po_vs_mo_check, exemption_iff, no_exemption_for_revision_date over the pipeline with the two is_binary readers spelled out; '
-                    'check_sim/transcoding_invariant (composition law); inventory pins (binary_reads, encoding_reads + none-tests, content_type_sites, charset_tag_sites, '
-                    'mo_entry_fields, entry_attr_reads, entry_attrs, option_uses). CONDITIONAL (named hypotheses): po_spelling_invariant_of_load_spells (C10 load_spells), '
-                    'transcoding_invariant (stages respect the relation). TEST level: everything about dpkg-deb, os.walk, temporary files, the real PO loader and the real check_* '
-                    'stages — metamorphic pairs and packages on the real tool.')
+                 'the models of C08, C10, C14-C16, C18-C20, C07 and their ties (composed in Lemmas/MetaReal.lean); the adapters Obs -> Hdr.Entry / MsgFacts / Msg.Entry are '
+                 'hand-written; the metamorphic comparisons on the real tool remain the tie of the composition as a whole'],
+        explanation='PROVED over the composed model (C10/C08 loaders + the stage models of C15, C19, C07, C20, C18, C16, C14): same_catalog_same_diagnostics '
+                    '(po_spelling_invariant_composed, mo_layout_invariant_composed), transcoding_composed(_files) with the charset-name blindness of every stage but check_mime '
+                    'proved for the instantiated models, po_vs_mo_composed(_check), po_file_vs_compiled_mo, checkAll_decomposes; generic layer: mo_layout_invariant, '
+                    'po_spelling_invariant (no loader hypothesis), check_sim, po_vs_mo / po_vs_mo_hidden / po_vs_mo_check, exemption_iff, mo_entry_view_neutral, '
+                    'unusual_characters_order_invariant, blame_is_order_sensitive; packaging: fake_path_*, deb_output, deb_output_lines, deb_lines_prefix, '
+                    'deb_other_member_silent, deb_member_line, deb_no_value_error, not_a_package_is_regular, no_unpack_is_regular; inventory pins. REFUTED (open finding, '
+                    'replayed every run): charset_declaration_refuted, po_vs_mo_unconditional_refuted. Explicit hypotheses left: SpelledFile/PyEnv (bytes and lines of the PO '
+                    'files), Encodes/WF (MO files), HeaderRel/TcName/DbOk (transcoding), Real.World parameters. TEST level: everything about dpkg-deb, os.walk, temporary '
+                    'files, and the behaviour of the real tool on metamorphic pairs and packages.')
 
 if __name__ == '__main__':
     common.main_wrapper(main)
